@@ -225,8 +225,15 @@ Definition out_rem (o : outcome) : vec :=
 Definition overused (q : qattr) : bool := vle_eps (q_des q) (q_alloc q).
 
 (* ---------- building the attributes from the session (proportion.go 95-156) ---------- *)
-Record task := mkT { t_kind : Z (* 0 pending, 1 allocated status, other: ignored *); t_req : vec }.
+(* task kinds: 0 Pending, 3 Pending with a scheduling gate (still api.Pending), 1 Running, 4 Bound
+   (both api.AllocatedStatus); everything else (Succeeded, Failed, Releasing ...) is ignored *)
+Record task := mkT { t_kind : Z; t_req : vec }.
+Definition kind_alloc (k : Z) : bool := Z.eqb k 1 || Z.eqb k 4.
+Definition kind_pending (k : Z) : bool := Z.eqb k 0 || Z.eqb k 3.
 
+(* The queue's Status.State (Open/Closed/Closing/Unknown) and the PodGroup phases are part of
+   the input but NOT of this record: the anchored code never reads them when it computes
+   totalGuarantee, realCapability, request, allocated or deserved. *)
 Record qspec := mkS {
   s_w : Z;
   s_cap : option vec;   (* Spec.Capability, None when empty *)
@@ -248,9 +255,9 @@ Definition attr_of (total tg : vec) (s : qspec) : qattr :=
   let g := base_some (s_gua s) in
   mkQ (s_w s)
       (real_cap total tg g (option_map base_some (s_cap s)))
-      (sum_tasks (fun k => Z.eqb k 0 || Z.eqb k 1) (s_tasks s))
+      (sum_tasks (fun k => kind_alloc k || kind_pending k) (s_tasks s))
       g
-      (sum_tasks (fun k => Z.eqb k 1) (s_tasks s))
+      (sum_tasks kind_alloc (s_tasks s))
       vzero false.
 
 Definition attrs (total : vec) (ss : list qspec) : list qattr :=
